@@ -79,10 +79,15 @@ def orm_dispatch(prog: Program) -> RuleResult:
             }
             funcs = dict(tm.FUNCS)
             funcs["all"] = lambda g: all(g)
-            paths = explore(
-                prog, pf, [Sym("self"), Sym("wrapped_field")], type_of={"wrapped_field": wf.qual},
-                const_attrs={"wrapped_field.resolved_type": ann}, globals_=tm.GLOBALS, funcs=funcs, inline=inline, preset=preset,
-            )
+            try:
+                paths = explore(
+                    prog, pf, [Sym("self"), Sym("wrapped_field")], type_of={"wrapped_field": wf.qual},
+                    const_attrs={"wrapped_field.resolved_type": ann}, globals_=tm.GLOBALS, funcs=funcs, inline=inline, preset=preset,
+                )
+            except tm.TypeErr as x:
+                # the classification applies a class-only operation to this annotation: TypeError when the layer is generated
+                reached.add(("raise:TypeError",))
+                continue
             for val, outcome, calls in paths:
                 extra = [a for a in val if a not in preset]
                 if extra:
